@@ -83,7 +83,7 @@ def gen_specs(ctx):
     out.append(S([F("retries", **{"def": "0"}), F("verbose", "bool", **{"def": "false"}), F("prefix", "string", **{"def": '""'}), F("n", "int")]))
     n = ctx.n(160, 1500)
     for _ in range(n):
-        out.append(g.top("T", **{"def": 0.5, "maxfields": 4, "generic": 0.06, "refdefs": 0.6, "selfembed": 0.05}))
+        out.append(g.top("T", **{"def": 0.5, "maxfields": 4, "generic": 0.06, "refdefs": 0.6, "selfembed": 0.05, "types_extra": newgen.EXTRA_TYPES}))
     return out
 
 
